@@ -100,6 +100,24 @@ def explore(ctx, depth):
         exp = {'ok': {'errors': [], 'export': e1['ok']}}
         if r2 != exp:
             ctx.fail({'text': case.text, 'clause': 'kern fixed point'}, 'import(export) has errors or does not re-export to the same text', impl=r2, expected=exp)
+        # the same through the file entry points: the source written to a file and read with load(), the export written with dump() and read
+        # back with load() - the normal form must not depend on the entry point
+        import tempfile, os
+        with tempfile.TemporaryDirectory(prefix='kernverif_c01_') as td:
+            src_path, out_path = os.path.join(td, 'src.krn'), os.path.join(td, 'out.krn')
+            with open(src_path, 'w', encoding='utf-8', newline='') as f:
+                f.write(case.text)
+            def via_files():
+                d, errs = kp.load(src_path)
+                kp.dump(d, out_path)
+                d2, errs2 = kp.load(out_path)
+                return {'errors': [[e.line, e.encoding] for e in errs] + [[e.line, e.encoding] for e in errs2], 'first': kp.dumps(d), 'second': kp.dumps(d2)}
+            rf = call(via_files)
+        expf = {'ok': {'errors': [], 'first': e1['ok'], 'second': e1['ok']}}
+        if rf != expf:
+            ctx.fail({'text': case.text, 'clause': 'fixed point through files (load / dump / load)'},
+                     'importing the document from a file, or re-importing its export from a file, does not give the same normal form as the in-memory path',
+                     impl=rf, expected=expf['ok'])
         x1 = call(lambda: kp.dumps(case.doc, encoding=Encoding.eKern))
         if 'ok' in x1:
             def chain():
